@@ -45,6 +45,32 @@ def cases(tier, seed):
     return common.rotate(out, seed)
 
 
+def repeated_name_cases(tier):
+    """two runs of one pipeline (same name, same attributes) whose ingests
+    overlap, and a third observation falling due while the second is still
+    ingesting, with hot room for it only if the second's outstanding volume
+    is ignored"""
+    from ..scopes import mkobs, mkcfg, mkcase, dag, CLUSTERS
+    out = []
+    wa = dag("chain2", [1, 1], [0])
+    wc = dag("single", [1])
+    caps = (14, 18, 22) if tier != "thorough" else (12, 14, 16, 18, 20, 22, 26)
+    for cap in caps:
+        for s2 in (1, 2):
+            for sc in (3, 4, 5):
+                for rc in (2, 4):
+                    obs = [mkobs("a", 0, 3, 2, 1, 1, "wa"),
+                           mkobs("a", s2, 3, 2, 1, 1, "wa"),
+                           mkobs("c", sc, 2, rc, 1, 1, "wc")]
+                    cfg = mkcfg(CLUSTERS[4][0], obs, (cap, 10), (100, 10),
+                                3, 3)
+                    for alg in ({"kind": "queue"},
+                                {"kind": "batch", "p": 1, "min": 1}):
+                        out.append(("S-repeated-name", mkcase(
+                            cfg, {"wa": wa, "wc": wc}, alg)))
+    return out
+
+
 def run(rep, tier, seed):
     rep.rule = RULE
     rep.assumptions = [
@@ -52,7 +78,7 @@ def run(rep, tier, seed):
         "the observation starts (the telescope is the first actor to act); "
         "room is judged per observation against current free space (literal "
         "reading; cumulative buffer accounting is C07's concern)"]
-    cs = cases(tier, seed)
+    cs = cases(tier, seed) + repeated_name_cases(tier)
     e1.sweep(rep, cs, monitors_for,
              {"delay": 1} if tier == "thorough" else {})
     e1.conformance(rep, cs[::max(1, len(cs) // 40)])
